@@ -130,6 +130,7 @@ Proof.
   - destruct (_ <? _); simpl; auto.
   - rewrite update_completed_length; auto. lia.
   - destruct (nth_error _ _); simpl; auto. destruct (f_pad _); simpl; auto.
+  - destruct (create_chunk _ _ _ _ _); simpl; auto.
 Qed.
 
 Lemma run_fcomp_length : forall c ops s, length (s_fcomp s) = length (c_files c) ->
@@ -180,25 +181,3 @@ Proof.
   - apply (size_chunks_pos c); auto.
 Qed.
 
-(* ------------------------------------------------------------------ per-file counters: the
-   full-strength statement is FALSE of the faithful model (and of the code): FileList::inc_completed
-   also increments the file that starts exactly at the end of the completed piece and the empty
-   files its walk passes, so File::completed_chunks() can exceed File::size_chunks(). *)
-Definition file_completed_bounded (c : cfg) (s : state) : Prop :=
-  forall j f x, nth_error (c_files c) j = Some f -> nth_error (s_fcomp s) j = Some x ->
-    x <= f_r2 f - f_r1 f.
-
-Theorem file_completed_bounded_refuted :
-  exists cs lay ops, cfg_ok cs lay /\
-    ~ file_completed_bounded (mk_cfg cs lay) (fst (run (mk_cfg cs lay) (init_state (mk_cfg cs lay)) ops)).
-Proof.
-  exists 1, [(1, false); (1, false); (1, false)], [OpMark 1; OpMark 2]. split.
-  - unfold cfg_ok, ceil_div, two32, two60. simpl. repeat split; try lia; reflexivity.
-  - intros H. specialize (H 2%nat (mkFile 2 1 false 2 3) 2 eq_refl eq_refl). simpl in H. lia.
-Qed.
-
-(* the same with an empty file: one completed piece, counter 1, piece count 0 *)
-Example file_completed_empty_file_overcount :
-  s_fcomp (fst (run (mk_cfg 3 [(2, false); (0, false); (5, false)])
-                    (init_state (mk_cfg 3 [(2, false); (0, false); (5, false)])) [OpMark 0])) = [1; 1; 1].
-Proof. vm_compute. reflexivity. Qed.
